@@ -68,3 +68,101 @@ def all_words(T, n):
         layer = [w + a for w in layer for a in sorted(T)]
         out.extend(layer)
     return out
+
+
+@st.composite
+def unit_chain_specs(draw, terms=("a", "b"), max_len=6):
+    """Grammars built around a chain / cycle of unit rules V0 -> V1 -> ... -> Vk (k = 3..max_len) with non-unit rules hanging off it;
+    the rule list is shuffled, so the closure has to be computed whatever the listing order is."""
+    k = draw(st.integers(3, max_len))
+    V = draw(st.lists(st.sampled_from(UPPER), min_size=k + 1, max_size=k + 1, unique=True))
+    T = list(terms)
+    R = [[V[i], [V[i + 1]]] for i in range(k)]
+    if draw(st.booleans()):
+        R.append([V[k], [V[draw(st.integers(0, k - 1))]]])          # close a unit cycle
+    for i in range(k + 1):
+        for _ in range(draw(st.integers(0, 2)) if i < k else draw(st.integers(1, 2))):
+            ln = draw(st.integers(1, 3))
+            rhs = [(V + T + T)[draw(st.integers(0, len(V) + 2 * len(T) - 1))] for _ in range(ln)]
+            if len(rhs) == 1 and rhs[0] in V:
+                rhs = [T[0]]
+            R.append([V[i], rhs])
+    if draw(st.integers(0, 3)) == 0:
+        R.append([V[draw(st.integers(0, k))], []])
+    R = list(draw(st.permutations(R)))
+    return {"V": V, "T": T, "R": R, "S": V[0]}
+
+
+@st.composite
+def recursive_cnf_specs(draw, terms=("a", "b"), max_vars=6):
+    """CNF grammars with 4-6 variables in which every variable has a binary rule (mutual recursion is likely) and most have a terminal rule."""
+    n = draw(st.integers(3, max_vars))
+    V = draw(st.lists(st.sampled_from(UPPER), min_size=n, max_size=n, unique=True))
+    T = list(terms)
+    S, others = V[0], V[1:]
+    R = []
+    for A in V:
+        for _ in range(draw(st.integers(1, 2))):
+            R.append([A, [others[draw(st.integers(0, len(others) - 1))], others[draw(st.integers(0, len(others) - 1))]]])
+        if draw(st.integers(0, 9)) < 1:
+            R.append([A, [T[draw(st.integers(0, len(T) - 1))]]])     # only some variables derive a single letter: shortest words differ per variable
+    if not any(len(rhs) == 1 for _, rhs in R):
+        R.append([V[-1], [T[0]]])
+    seen, out = set(), []
+    for A, rhs in R:
+        if (A, tuple(rhs)) not in seen:
+            seen.add((A, tuple(rhs)))
+            out.append([A, rhs])
+    return {"V": V, "T": T, "R": out, "S": S}
+
+
+@st.composite
+def mutual_recursion_cnf_specs(draw, terms=("a", "b")):
+    """CNF template: two (or three) mutually recursive variables whose base cases have different lengths,
+         Y -> X D | <word of length a>,   X -> Y C | <word of length b>   (optionally through a third variable Z),
+    the fixed-length base cases being spelled out with helper variables.  Any memoised / guarded recursion over the
+    variables (shortest word, productivity, ...) has to get both orders of visiting right."""
+    T = list(terms)
+    names = draw(st.lists(st.sampled_from(UPPER), min_size=12, max_size=12, unique=True))
+    S, Y, X, Z, C, D = names[:6]
+    helpers = names[6:]
+    R = []
+    V = [S, Y, X, Z, C, D]
+    R.append([C, [T[draw(st.integers(0, len(T) - 1))]]])
+    R.append([D, [T[draw(st.integers(0, len(T) - 1))]]])
+
+    def fixed(k, head):
+        """rules so that `head` derives (among others) a word of length k >= 1, as alternatives of head"""
+        if k == 1:
+            R.append([head, [T[draw(st.integers(0, len(T) - 1))]]])
+            return
+        h1, h2 = helpers.pop(), helpers.pop()
+        V.extend([h1, h2])
+        R.append([head, [h1, h2]])
+        left = draw(st.integers(1, k - 1))
+        for h, ln in ((h1, left), (h2, k - left)):
+            if ln == 1:
+                R.append([h, [T[draw(st.integers(0, len(T) - 1))]]])
+            else:
+                R.append([h, [C, D]] if ln == 2 else [h, [C, D]])
+                if ln > 2:
+                    # longer fillers are not needed exactly; keep helper productive with length 2
+                    pass
+    a, b = draw(st.integers(1, 3)), draw(st.integers(1, 4))
+    three = draw(st.booleans())
+    R.append([Y, [X, D]])
+    if three:
+        R.append([X, [Z, C]])
+        R.append([Z, [Y, D]])
+        R.append([Z, [C, C]])
+    else:
+        R.append([X, [Y, C]])
+    fixed(a, Y)
+    fixed(b, X)
+    start_rules = draw(st.sampled_from([[[S, [Y, D]]], [[S, [X, C]]], [[S, [Y, D]], [S, [X, C]]], [[S, [C, X]], [S, [Y, Y]]]]))
+    R = start_rules + R
+    if draw(st.booleans()):
+        R = start_rules + list(draw(st.permutations(R[len(start_rules):])))
+    used = {S} | {x for _, rhs in R for x in rhs} | {A for A, _ in R}
+    V = [v for v in V if v in used]
+    return {"V": V, "T": T, "R": R, "S": S}
